@@ -20,20 +20,16 @@ import (
 
 var stView = viewSpec{Rules: []ruleT{{"a", "s.a", "read-write"}, {"b", "s.b", "read-write"}, {"w", "s.w", "write"}, {"r", "s.r", "read"}}}
 
-const stSchema = `{
-  "storage": {
-    "schema": {
-      "s": {
-        "schema": {
-          "a": {"type": "int", "max": 5},
-          "b": "any",
-          "w": "any",
-          "r": "any"
-        }
-      }
-    }
-  }
-}`
+// stSchemaBody: the assertion body must be canonical JSON (2-space indent, sorted keys)
+func stSchemaBody() []byte {
+	b, err := json.MarshalIndent(map[string]interface{}{"storage": map[string]interface{}{"schema": map[string]interface{}{
+		"s": map[string]interface{}{"schema": map[string]interface{}{
+			"a": map[string]interface{}{"type": "int", "max": 5}, "b": "any", "w": "any", "r": "any"}}}}}, "", "  ")
+	if err != nil {
+		panic(err)
+	}
+	return b
+}
 
 type stOp struct {
 	Reg    string                 `json:"reg"`
@@ -94,7 +90,7 @@ func newStFixture() *stFixture {
 			"views":        map[string]interface{}{"v": map[string]interface{}{"rules": rules}},
 			"timestamp":    "2030-11-06T09:16:26Z",
 		}
-		as, err := signing.Sign(asserts.RegistryType, headers, []byte(stSchema), "")
+		as, err := signing.Sign(asserts.RegistryType, headers, stSchemaBody(), "")
 		if err != nil {
 			eng.HarnessError("cannot sign registry assertion: %v", err)
 		}
